@@ -1714,7 +1714,7 @@ func (c *Conn) executeBatchAttempt(ctx context.Context, batch *Batch, reprepared
 		}
 	}
 
-	framer, err := c.exec(batch.Context(), req, batch.trace)
+	framer, err := c.exec(ctx, req, batch.trace)
 	if err != nil {
 		return &Iter{err: err}
 	}
